@@ -1,13 +1,2 @@
-(* GENERATED by harness/py2coq.py from dimarray/core/axes.py (class Axis) -- do not edit *)
-From Coq Require Import Bool.
-Definition opt_truthy (c : option bool) : bool := match c with Some true => true | _ => false end.
-Definition opt_is_none (c : option bool) : bool := match c with None => true | _ => false end.
-(* the cache of the axis a method leaves behind: c = cache before, t = is_monotonic(values), sl = the index is a slice *)
-Definition g_cache_init (c : option bool) (t : bool) (sl : bool) : option bool := None.
-Definition g_cache_values_setter (c : option bool) (t : bool) (sl : bool) : option bool := None.
-Definition g_cache_sort (c : option bool) (t : bool) (sl : bool) : option bool := None.
-Definition g_cache_getitem (c : option bool) (t : bool) (sl : bool) : option bool := (if ((opt_truthy c) && sl) then c else None).
-Definition g_cache_setitem (c : option bool) (t : bool) (sl : bool) : option bool := None.
-Definition g_cache_take (c : option bool) (t : bool) (sl : bool) : option bool := None.
-Definition g_cache_is_monotonic (c : option bool) (t : bool) (sl : bool) : option bool := (if (opt_is_none c) then (Some t) else c).
-Definition g_cache_copy (c : option bool) (t : bool) (sl : bool) : option bool := c.
+(* translation failed: cache changed under a condition the model does not see at line 182: If(test=Compare(left=Name(id='values', ctx=Load()), ops=[IsNot()], comparators=[Attribute(value=Name(id='self', ctx=Load()), attr='_values', ctx=Load())]), body=[Assign(targets=[Attribute(value=Name(i *)
+Definition translation_failed := tt.
